@@ -191,7 +191,7 @@ def validate_traces(r, files, props, maxfix=2):
     return res
 
 
-def replay_cases(r, cases, tag, props, watch=False, budget=4000, validate=True, chunks=None):
+def replay_cases(r, cases, tag, props, watch=False, budget=4000, validate=True, chunks=None, trees=False):
     """model -> code: run exported cases on the real combinators; then validate the recorded traces"""
     if not cases:
         return None
@@ -214,7 +214,7 @@ def replay_cases(r, cases, tag, props, watch=False, budget=4000, validate=True, 
         core.write_ndjson(inp, part)
         rep = r.path("rep-%s-%d.json" % (tag, c))
         tr = r.path("trace-%s-%d.ndjson" % (tag, c))
-        r.pvh("parse", "replay", **{"in": inp, "out": rep, "trace": tr, "budget": budget, "watch": 1 if watch else 0})
+        r.pvh("parse", "replay", **{"in": inp, "out": rep, "trace": tr, "budget": budget, "watch": 1 if watch else 0, "trees": 1 if trees else 0})
         reps.append(json.load(open(rep)))
         files.append(tr)
     tot = {"cases": 0, "asks": 0, "skipped_budget": 0, "nontrivial": 0, "events": 0, "drift": 0, "violations": 0}
@@ -338,7 +338,7 @@ def run_plan(r, plan):
                 raise core.Inconclusive("ParsleyMC did not finish: %r\n%s" % (o, core.tail(o.out_path, 30)))
             if not cases:
                 raise core.Inconclusive("ParsleyMC exported no case for %s" % fam)
-            rep = replay_cases(r, cases, "%s-%d" % (fam, sl), props, watch=plan.get("watch", False))
+            rep = replay_cases(r, cases, "%s-%d" % (fam, sl), props, watch=plan.get("watch", False), trees=plan.get("trees", False))
             st["replay"] = rep
             fam_stats.append(st)
     rnd_stats = []
